@@ -177,6 +177,8 @@ def piece_wf(p) -> bool:
             return False
         if not e and w3:
             return False
+        if name == "" and w2:
+            return False  # `\s*` before an empty name takes all the white space
         if name != "#" and e and not w2 and (e[0] == "_" or e[0].isalnum()):
             return False  # the name would swallow the expression
         if name == "" and e and (e[0] == "#" or e[0] == "_" or e[0].isalnum()):
@@ -220,6 +222,28 @@ def delims_ok(d) -> bool:
     return True
 
 
+def _wordch(c) -> bool:
+    return c == "_" or c.isalnum()
+
+
+def word_end_adjacent(d, pieces) -> bool:
+    """tag_end_string starts with a word character and some tag name is written directly in front of it:
+    the lexer's greedy `\\w*` name group swallows the delimiter's first character(s) (known finding
+    C11 lex|word-char-tag-end|adjacent-name; regular streams stay outside this zone)."""
+    te = d[1]
+    if te and te[0] == "#":
+        return any(p[0] == "tag" and p[3] == "" and not p[7] and not (p[4] + p[5] + p[6]) for p in pieces)
+    if not te or not _wordch(te[0]):
+        return False
+    for p in pieces:
+        if p[0] == "tag" and not p[7] and not (p[4] + p[5] + p[6]) and p[3] != "#":
+            return True
+        if p[0] in ("raw", "doc"):
+            if (not p[4] and not p[3]) or (not p[9] and not p[8]):
+                return True
+    return False
+
+
 def collides(d, pieces) -> bool:
     """True when d collides with itself or with the template text: some delimiter string occurs in the
     assembled source anywhere except where the rewriting wrote it (raw / doc bodies may contain anything but
@@ -236,6 +260,8 @@ def collides(d, pieces) -> bool:
             if any(a <= pos and pos + len(x) <= b for a, b in protected):
                 continue
             return True
+    if word_end_adjacent(d, pieces):
+        return True
     ts = d[0]
     for a, b in protected:
         if re.search(re.escape(ts) + r"-?\s*end(raw|doc)", s[a:b]):
@@ -275,3 +301,14 @@ def gen_delims(rng, pieces_list, comments: bool, tries: int = 60):
         if all(not collides(d, ps) for ps in pieces_list):
             return d
     return None
+
+
+def unwrap(x):
+    """Driver answers carry non-ASCII strings as {"u": [code points]}; turn them back into str."""
+    if isinstance(x, dict):
+        if set(x) == {"u"} and isinstance(x["u"], list):
+            return "".join(chr(c) for c in x["u"])
+        return {k: unwrap(v) for k, v in x.items()}
+    if isinstance(x, list):
+        return [unwrap(v) for v in x]
+    return x
